@@ -1,9 +1,11 @@
 #!/bin/bash
-# usage: seed_try.sh <patch.diff> <pid> [more pids]  -- applies the patch to /repo, runs ./check, restores
-P=$1; shift
-cd /repo && git apply "$P" || exit 3
-cd /verif
-for pid in "$@"; do
-  ./check $pid 2>&1 | grep -E '^(VIOLATION|UNDECIDED|OK|obligation failed)' | cut -c1-230 | head -4
-done
-git -C /repo checkout -- .
+# usage: seed_try.sh <seed-name> <pid>...   runs the checks against a scratch clone of /repo with the seed applied;
+# caches / evidence / replay files go to a private work area (VERIF_WORK), /repo and /verif/evidence stay untouched
+set -u
+N=$1; shift
+R=/tmp/seedtry-repo-$$; W=${SEED_TRY_WORK:-/tmp/seedtry-work}
+rm -rf $R; git clone -q /repo $R || exit 3
+git -C $R apply /verif/seeded/$N/patch.diff || { echo "patch does not apply"; rm -rf $R; exit 3; }
+mkdir -p $W
+for p in "$@"; do VERIF_REPO=$R VERIF_WORK=$W /verif/check $p 2>&1 | grep -E "^(obligation failed|VIOLATION|UNDECIDED|OK)" | cut -c1-260 | head -${SEED_TRY_LINES:-6}; done
+rm -rf $R
